@@ -31,7 +31,7 @@ Record ccase := {
 
 Definition dummy_cfg : cfg :=
   {| c_mst := []; c_tagkeys := []; c_sk := []; c_typ := Hash; c_dur := 1%Z; c_groups := []; c_mstidx := None |}.
-Definition dummy_m : mcfg := {| m_cfg := dummy_cfg; m_vers := [] |}.
+Definition dummy_m : mcfg := {| m_cfg := dummy_cfg; m_vers := []; m_db := [] |}.
 Definition mst_of (c : ccase) (i : nat) : mcfg := nth i (cc_msts c) dummy_m.
 Definition qmst (c : ccase) : mcfg := mst_of c (cc_qm c).
 
@@ -56,7 +56,7 @@ Definition with_born (c : ccase) : list (group * Z) := combine (all_groups c) (c
 Definition with_groups (m : mcfg) (gs : list group) : mcfg :=
   {| m_cfg := {| c_mst := c_mst (m_cfg m); c_tagkeys := c_tagkeys (m_cfg m); c_sk := c_sk (m_cfg m); c_typ := c_typ (m_cfg m);
                  c_dur := c_dur (m_cfg m); c_groups := gs; c_mstidx := c_mstidx (m_cfg m) |};
-     m_vers := m_vers m |}.
+     m_vers := m_vers m; m_db := m_db m |}.
 
 (* catalogue seen by the routing of point i: the groups that existed before, plus - when none of them (nor the cached
    one) takes the timestamp - the group created for this point, whose span must be [trunc(t,d), +d) clipped *)
